@@ -18,32 +18,48 @@ Example C14_spec_demo :
   first_bad 0 rs rs' = None /\ ceqb (h_close h) (sp_data s) = true /\ clen (sp_data s) = 20.
 Proof. vm_compute. repeat split; reflexivity. Qed.
 
-(* THE THEOREM: inside the envelope (no positioned I/O, no O_APPEND, seeks in read mode not beyond the
-   end) every handle call returns what the byte-array reference returns, for every initial content,
-   flag combination and call sequence, and the content read after Close is the reference's data. *)
+(* THE THEOREM: inside the envelope (seeks not beyond the end of the data; everything else, positioned I/O and
+   O_APPEND handles included, is unrestricted) every handle call returns what the byte-array reference returns,
+   for every initial content, flag combination and call sequence, and the content read after Close is the
+   reference's data. *)
 Theorem C14_handle_refines_bytearray : forall existing fl ops,
-  fl_append fl = false ->
   ops_ok (spec_open existing fl) ops = true ->
   let '(h, rs) := hrun (h_open existing fl) ops in
   let '(s, rs') := spec_run (spec_open existing fl) ops in
   results_agree rs rs' /\ ceqb (h_close h) (sp_data s) = true.
 Proof. exact C14_refines. Qed.
 
-(* the same under the wider envelope: any seek once the handle is in write mode; refused calls anywhere *)
+(* the same under the wider envelope: any seek once the handle is in write mode; refused seeks anywhere *)
 Theorem C14_handle_refines_bytearray_wide : forall existing fl ops,
-  fl_append fl = false ->
   ops_ok' (wm_open existing fl) (spec_open existing fl) ops = true ->
   let '(h, rs) := hrun (h_open existing fl) ops in
   let '(s, rs') := spec_run (spec_open existing fl) ops in
   results_agree rs rs' /\ ceqb (h_close h) (sp_data s) = true.
 Proof. exact C14_refines_wide. Qed.
 
-(* each envelope restriction is necessary: the known findings as refutation witnesses *)
-Theorem C14_readat_moves_cursor_refuted : agree_b ten fl_ro [HReadAt 2 3; HRead 1] = false.
-Proof. exact needs_no_readat. Qed.
+(* ... with syntactically equal results and final piece list when the existing content does not end in zero-length pieces *)
+Theorem C14_handle_refines_bytearray_eq : forall existing fl ops,
+  notrail existing ->
+  ops_ok' (wm_open existing fl) (spec_open existing fl) ops = true ->
+  let '(h, rs) := hrun (h_open existing fl) ops in
+  let '(s, rs') := spec_run (spec_open existing fl) ops in
+  rs = rs' /\ h_close h = sp_data s.
+Proof. exact C14_refines_eq. Qed.
+
+(* the remaining envelope restriction is necessary: the known finding as a refutation witness *)
 Theorem C14_seek_beyond_end_refuted : agree_b ten fl_ro [HSeek 20 0; HSeek 0 1] = false.
 Proof. exact needs_seek_bound. Qed.
-(* O_APPEND handles used to be a fourth restriction (repaired in /repo); the former witnesses now agree *)
+(* ReadAt/WriteAt moving the cursor used to be a second restriction (repaired in /repo); the former witnesses now agree
+   and are inside the envelope *)
+Theorem C14_readat_agrees :
+  agree_b ten fl_ro [HReadAt 2 3; HRead 1] = true /\ ops_ok (spec_open ten fl_ro) [HReadAt 2 3; HRead 1] = true.
+Proof. exact readat_agrees. Qed.
+Theorem C14_writeat_agrees :
+  agree_b ten fl_rw [HWriteAt [(7, 0, 2)] 0; HWrite [(8, 0, 1)]] = true /\
+  ops_ok (spec_open ten fl_rw) [HWriteAt [(7, 0, 2)] 0; HWrite [(8, 0, 1)]] = true.
+Proof. exact writeat_agrees. Qed.
+(* O_APPEND handles used to be a third restriction (repaired in /repo); the former witnesses now agree, and the theorems
+   above no longer exclude O_APPEND *)
 Theorem C14_append_agrees :
   agree_b ten fl_rwa [HWrite [(7, 0, 2)]; HSeek 0 0; HWrite [(8, 0, 1)]] = true /\
   agree_b ten fl_rwa [HWrite []; HRead 4] = true /\
@@ -52,3 +68,4 @@ Proof. exact append_agrees. Qed.
 
 Print Assumptions C14_handle_refines_bytearray.
 Print Assumptions C14_handle_refines_bytearray_wide.
+Print Assumptions C14_handle_refines_bytearray_eq.
